@@ -4,14 +4,14 @@ CONSTANTS
   V4 = 2
   MapPat = 3
   Fams = {4, 6}
-  MaxLen = 3
+  MaxLen = 2
   WithBad = TRUE
-  QueryEdges = FALSE
+  QueryEdges = TRUE
   HostBits = "all"
-  Canon = TRUE
+  Canon = FALSE
 INIT Init
 NEXT Next
 VIEW View
-INVARIANTS TypeOK Exact UnparsableEntryIgnored MappedAsV4 CompiledShape AddsMatch CompileMatch
+INVARIANTS TypeOK Exact UnparsableEntryIgnored MappedAsV4 CompiledShape AddsMatch CompileMatch BadNeverWidens
 PROPERTIES QueryExact UnparsableEntryIgnoredA
 CHECK_DEADLOCK FALSE
